@@ -269,6 +269,10 @@ open Lean Elab Command in
                 self.sig_hist[key] = self.sig_hist.get(key, 0) + 1
                 if (sig or req.startswith('threads')) and not self.trivial(req, out):
                     self.nontrivial.add(req)
+            if out == "panic badinput" or mout == "bad-op":
+                # a request outside the protocol's domain (generator slip): counted, never a verdict
+                self.extra["bad_requests"] = self.extra.get("bad_requests", 0) + 1
+                continue
             if not self.match(spec, out):
                 kf = self.known(req, out)
                 if kf:
